@@ -3,7 +3,7 @@ import json, os
 from tools import vlib
 
 THEOREMS = ["Rink.Spec.getLoop_skip", "Rink.Spec.get_linear", "Rink.Spec.get_inverse", "Rink.Spec.roundtrip_value",
-            "Rink.Spec.get_wrong_dim", "Rink.Spec.get_scales", "Rink.Spec.formula_sum", "Rink.Spec.formula_rejects_unknown",
+            "Rink.Spec.get_wrong_dim", "Rink.Spec.get_scales", "Rink.Spec.div_scales_amount", "Rink.Spec.formula_sum", "Rink.Spec.formula_rejects_unknown",
             "Rink.Spec.formula_rejects_error", "Rink.Spec.empty_is_not_a_formula", "Rink.Dim.canonical_ext", "Rink.Dim.div_eq_nil_iff"]
 
 def run(c):
@@ -36,7 +36,7 @@ def run(c):
                         {"kind": "input", "input": d["request"], "impl": d["impl"], "model": d["model"], "correspondence": "rkh c16 | rinkmodel subst"}, found=False)
     c.coverage.update({
         "evaluations": st["total"], "distinct_nontrivial": st["total"],
-        "rule": "every substance (%d) and every property of the database x rational amounts (1, integers, fractions, negative, tiny, huge, zero) in the input dimensionality, the output dimensionality, dimensionless and a foreign dimensionality x {output name, input name, property key, unknown name}; %d formulas over the %d element symbols with counts up to 2^32-1 and near-miss strings; Substance::get / formula results are compared with the Lean model; oracle: linear law, inverse law, conformance error for foreign dimensionalities (names that identify the property unambiguously), formula never panics, the same linear law through `<name> of <amount> <substance>` queries" % (st["substances"], st["formulas"], st["symbols"]),
+        "rule": "every substance (%d) and every property of the database x rational amounts (1, integers, fractions, negative, tiny, huge, zero) in the input dimensionality, the output dimensionality, dimensionless and a foreign dimensionality x {output name, input name, property key, unknown name}; %d formulas over the %d element symbols with counts up to 2^32-1 and near-miss strings; Substance::get / formula results are compared with the Lean model; oracle: linear law, inverse law, conformance error for foreign dimensionalities (names that identify the property unambiguously), formula never panics, the same linear law through `<name> of <amount> <substance>` queries; the four reply paths of a property agree (`p of k s`, `k s`, `k s -> unit`, `p of k s -> unit`); `p of (k s / j)`, `p of (s k / j)`, `p of (s / j * k)` equal `p of ((k)/(j)) s`" % (st["substances"], st["formulas"], st["symbols"]),
         "samples": st["samples"], "exhaustive": True, "input_distribution": st,
     })
 
